@@ -9,3 +9,66 @@ func VerifC01_q_reincarnation() {
 func VerifC01_t_reincarnationDeep() {
 	vpReincarnation(vpScenarioOpts{prop: "C01", topos: []int{0, 1, 3}, kinds: []int{vpKindSts, vpKindDp, vpKindBare, vpKindTApp}, earlySteps: 2, lateSteps: 2})
 }
+
+
+// BOUND: topology 0; a statefulset pod (symbolic policy) bound, then gone (deleted; its event handled or still pending) so that its IP is reserved or still recorded for the key; an administrator's API release of that IP runs while, as a second logical thread starting inside any one window right before/after an API-server or IPAM call of the release (symbolic window 0..12), the same-named pod is re-created with a new UID, filtered and bound; the second thread waits (parks) wherever it needs a pod/pool key lock the release holds; afterwards another pod is scheduled. No two live pods may hold one IP and every live bound pod must own its IP
+// ASSUME: C01: two logical threads, the second starts inside one window of the first and only waits at pod/pool key locks; sync.RWMutex waits inside crdIpam are not explored (such interleavings are discarded)
+func VerifC01_q_releaseVsRebind() {
+	w := vpNewWorld(0, false)
+	if err := w.configure(); err != nil {
+		return
+	}
+	w.wrapIPAM()
+	w.setStatefulSet(3)
+	policy := nondetPick("", "immutable", "never")
+	name := "ss-0"
+	w.createPod(vpMakePod(name, "U1", vpKindSts, policy, "", ""))
+	w.syncListers()
+	nodes, err := w.filter(name, "n1", "n5", "n3")
+	if err != nil || len(nodes) == 0 {
+		return
+	}
+	if w.bind(name, nodes[0]) != nil {
+		return
+	}
+	w.setRunning(name)
+	ip := vpBoundIPs(w.pods[name])[0]
+	w.syncListers()
+	w.deletePod(name)
+	w.syncListers()
+	if nondetBool() {
+		for len(w.pending) > 0 {
+			_ = w.handleEvent(0)
+		}
+	}
+	w.interferer = func() {
+		w.createPod(vpMakePod(name, "U2", vpKindSts, policy, "", ""))
+		w.syncListers()
+		nodes, err := w.filter(name, "n1", "n5", "n3")
+		if err != nil || len(nodes) == 0 {
+			return
+		}
+		if w.bind(name, nodes[nondetChoice(len(nodes))]) == nil {
+			w.setRunning(name)
+			w.syncListers()
+		}
+	}
+	w.windowAt = nondetInt(0, 12)
+	_ = w.apiRelease(ip)
+	w.finishInterference()
+	if w.interferer != nil {
+		return // the re-creation did not overlap the release: covered by the sequential scenarios
+	}
+	verifReach("rebind-overlapped-release")
+	w.checkAll("C01", "an API release that overlapped the re-binding of the same pod name")
+	// somebody else asks for an IP now
+	other := "ss-1"
+	w.createPod(vpMakePod(other, "V1", vpKindSts, "", "", ""))
+	w.syncListers()
+	if nodes, err := w.filter(other, "n1", "n5", "n3"); err == nil && len(nodes) > 0 {
+		if w.bind(other, nodes[0]) == nil {
+			w.setRunning(other)
+		}
+	}
+	w.checkAll("C01", "scheduling another pod afterwards")
+}
